@@ -108,8 +108,10 @@ Section CheckerFuel.
     intros Hw st. unfold check_body.
     destruct n; try apply (check_block_nofuel w _ Hw).
     - (* NFunc *) destruct (check_loop_func st name args) as [e|] eqn:E; [|apply (check_block_nofuel w _ Hw)].
-      unfold check_loop_func in E. destruct (_ || _); [|discriminate]. destruct args as [|a r]; [discriminate|].
-      destruct a; try discriminate. destruct (existsb _ _); [discriminate|]. injection E as <-. discriminate.
+      intros [= ->]. unfold check_loop_func in E. destruct (_ || _); [|discriminate].
+      destruct args as [|a [|a2 r]]; [discriminate| |destruct a; try discriminate; destruct access; discriminate].
+      destruct a; try discriminate. destruct access; [|discriminate].
+      destruct (existsb _ _); discriminate.
     - (* NDataRef *) destruct (visit_key params st key) as [e|st'] eqn:E; [intros [= ->]; apply (visit_key_nofuel st key E) | apply (check_block_nofuel w _ Hw)].
     - (* NFor *) cbn [children] in Hw.
       match goal with |- nofuel (match w st ?a with _ => _ end) =>
